@@ -714,7 +714,7 @@ def rule_comment_wrappers(ctx):
         fn = FORMATTER + f
         h = ctx.need_hir(rule, fn)
         folds = [n for n in H.walk(h["body"]) if H.kind(n) == "MethodCall" and n["name"] == "fold"]
-        adapters = [x["name"] for n in folds for x in H.walk(n["recv"]) if H.kind(x) == "MethodCall" and x["name"] not in ("iter", "trailing_comments")]
+        adapters = [x["name"] for n in folds for x in H.walk(n["recv"]) if H.kind(x) == "MethodCall" and x["name"] not in ("iter", "trailing_comments", "enumerate")]     # enumerate keeps every element
         ctx.check(len(folds) == 1 and not adapters, rule, "%s:all" % f, "%s does not fold over the whole comment list (adapters %s)" % (f, adapters),
                   facts.bodies()[fn]["loc"], detail={"emitter": f})
 
